@@ -144,7 +144,7 @@ BiInit(B, g) == [u |-> ZeroVec(Len(g)), r |-> g, p |-> ZeroVec(Len(g)), v |-> Ze
 BiStep(B, g, st) ==
     IF ~st.def \/ st.done THEN st
     ELSE LET rho1 == Dot(g, st.r)
-         IN  IF IsZero(st.rho) \/ IsZero(st.omega) \/ IsZero(rho1) THEN [st EXCEPT !.def = FALSE]
+         IN  IF IsZero(st.rho) \/ IsZero(st.omega) THEN [st EXCEPT !.def = FALSE]       \* beta divides by them
              ELSE LET beta == QMul(QDiv(rho1, st.rho), QDiv(st.alpha, st.omega))
                       p    == VAdd(st.r, VScale(beta, VSub(st.p, VScale(st.omega, st.v))))
                       v    == MatVec(B, p)
